@@ -227,6 +227,15 @@ def run(ctx):
         for k in ks[:1 if not ctx.thorough() else 3]:
             coupled_starts.append((f"{src}-from-{resn}{blocks[k][0][1].strip()}",
                                    C.join([ln for b in blocks[k:(None if resn == "CYS" else k + 45)] for ln in b[1] if ln[16] in " A"] + [C.TER]), []))
+    # a free cysteine hydrogen-bonded to the buried catalytic histidine (point mutation S195C of 3SGB: OG becomes SG)
+    s195c = []
+    for ln in C.body(C.test_pdb_text("3SGB")):
+        if C.is_atom(ln) and ln[21] == "E" and ln[17:20] == "SER" and int(ln[22:26]) == 195:
+            ln = ln[:17] + "CYS" + ln[20:]
+            if ln[12:16].strip() == "OG":
+                ln = ln[:12] + " SG " + ln[16:76] + " S" + ln[78:]
+        s195c.append(ln)
+    coupled_starts.append(("3SGB-S195C", C.join(s195c), []))
     cases = runbank.base_cases(ctx) + coupled_starts + ion_constructs(ctx, cfgt) + twin_ion_constructs(ctx) + like_charge_constructs(ctx) + runbank.kit_cases(ctx, every=1 if ctx.thorough() else 5)
     # parameter files that change the desolvation model but none of the configured bounds
     from . import c02
